@@ -298,7 +298,7 @@ def method_call(it, n, b, attr, args, kwargs, st):
         return Val("unknown", cfg=True)
     if b.kind == "instance":
         # method on a constructed subsystem / solver object
-        it.emit("instance_call", n, st, base=b, method=attr, args=args, kwargs=kwargs, src=unparse(n)[:200])
+        it.emit("instance_call", n, st, base=b, base_src=unparse(n.func.value), method=attr, args=args, kwargs=kwargs, src=unparse(n)[:200])
         return Val("unknown", cfg=True)
     # array methods
     if attr in VIEW_METHODS:
